@@ -55,6 +55,7 @@ CONTROLS = {
          "op2->pt == op2->next->pt || preserve_collinear_ ||", "T.removal"),
     ],
     "C04": [
+        ("PolyPathD(parent, PathD) no longer inherits the parent's scale", H + "clipper.engine.h", "\t\t\tscale_ = parent ? parent->scale_ : 1.0;\n\t\t\tpolygon_ = path;", "\t\t\tscale_ = 1.0;\n\t\t\tpolygon_ = path;", "SCALE.inherited"),
         ("DoSplitOp does not record the split in tree mode", E, "          if (!outrec->splits) outrec->splits = new OutRecList();\n          outrec->splits->emplace_back(newOr);", "          if (!outrec->splits) outrec->splits = new OutRecList();", "SPLIT.recorded"),
         ("SetOwner links a record below its own descendant", E, "    while (tmp && tmp != outrec) tmp = tmp->owner;\n    if (tmp) new_owner->owner = outrec->owner;", "    while (tmp && tmp != outrec) tmp = tmp->owner;", "OWNER.reparent"),
         ('local minimum without a hot edge on its left keeps the owner it had', 'CPP/Clipper2Lib/src/clipper.engine.cpp', '      else\n      {\n        outrec->owner = nullptr;', '      else\n      {', 'OWNER.assigned'),
@@ -120,6 +121,7 @@ CONTROLS = {
         ("closing vertex stripped for open end types too", O, "\tfor (Path64& p: paths_in)\n\t  StripDuplicates(p, is_joined);", "\tfor (Path64& p: paths_in)\n\t  StripDuplicates(p, true);", "GROUP.strip-closed"),
     ],
     "C08": [
+        ("second end point on a rectangle corner is no crossing", R, "      if (p2 == p3 || p2 == p4) return true;\n      else if (IsHorizontal(p3, p4)) return ((p2.x > p3.x) == (p2.x < p4.x));", "      if (IsHorizontal(p3, p4)) return ((p2.x > p3.x) == (p2.x < p4.x));", "T.touching"),
         ("the crossing marker is left at the current region", R, "          crossing_loc = crossing_prev; // still not crossed", "          crossing_loc = prev; // still not crossed", "CROSSING.latched"),
         ("the corner walk does not advance through start_locs_", R, "          AddCorner(prev, HeadingClockwise(prev, loc2));\n          prev = loc2;", "          AddCorner(prev, HeadingClockwise(prev, loc2));", "CORNER.chain"),
         ("a closing vertex on the boundary always starts the scan on its side", R, "      if (prev == Location::Inside) loc = Location::Inside;\n    }\n    Location starting_loc = loc;", "    }\n    Location starting_loc = loc;", "START.location"),
@@ -134,6 +136,7 @@ CONTROLS = {
          "      for (OutPt2List &edge : edges_) edge.clear();\n    }\n    return result;", "LOOP"),
     ],
     "C09": [
+        ("three-point CrossProduct multiplies in int64", H + "clipper.core.h", "    return (static_cast<double>(pt2.x - pt1.x) * static_cast<double>(pt3.y -\n      pt2.y) - static_cast<double>(pt2.y - pt1.y) * static_cast<double>(pt3.x - pt2.x));", "    return static_cast<double>((pt2.x - pt1.x) * (pt3.y - pt2.y)) - static_cast<double>((pt2.y - pt1.y) * (pt3.x - pt2.x));", "INT64.product"),
         ("the high-precision origin's x is taken from a y bound", H + "clipper.core.h", "      int64_t originx = (CC_MIN(bb0maxx, bb1maxx) + CC_MAX(bb0minx, bb1minx)) >> 1;", "      int64_t originx = (CC_MIN(bb0maxx, bb1maxx) + CC_MAX(bb0minx, bb1miny)) >> 1;", "AXIS.homogeneous"),
         ("a first vertex on the boundary always starts the line scan on its side", R, "      if (prev == Location::Inside) loc = Location::Inside;\n      i = 1;", "      i = 1;", "START.location"),
         ("a point's y is compared with the right side", 'CPP/Clipper2Lib/src/clipper.rectclip.cpp', '    else if (pt.y == rec.top && pt.x >= rec.left && pt.x <= rec.right)', '    else if (pt.y == rec.right && pt.x >= rec.left && pt.x <= rec.right)', 'T.location'),
@@ -164,6 +167,7 @@ CONTROLS = {
         ("DisposeOutPt deletes before unlinking", E, "    op->prev->next = op->next;\n    op->next->prev = op->prev;\n    delete op;", "    delete op;\n    op->prev->next = op->next;\n    op->next->prev = op->prev;", "LINK.consistent-at-throw"),
     ],
     "C11": [
+        ("Reset wipes the error code", E, "    sel_ = nullptr;\n    succeeded_ = true;", "    sel_ = nullptr;\n    succeeded_ = true;\n    error_code_ = 0;", "ERRCODE.sticky"),
         ("MakePathD reports a count that shrank, not an odd one", H + "clipper.h", "    if (list.size() != size)\n      DoError(non_pair_error_i);  // non-fatal without exception handling\n    PathD result;", "    if (list.size() < size)\n      DoError(non_pair_error_i);  // non-fatal without exception handling\n    PathD result;", "R8.odd-count"),
         ("ScalePaths computes the bounds only for more than one path", H + "clipper.core.h", "      RectD r = GetBounds<double, T2>(paths);", "      RectD r = (paths.size() > 1) ? GetBounds<double, T2>(paths) : RectD();", "R7.range-table"),
         ("BuildPathsD appends to the caller's closed solution", E, "  void ClipperD::BuildPathsD(PathsD& solutionClosed, PathsD* solutionOpen)\n  {\n    solutionClosed.resize(0);", "  void ClipperD::BuildPathsD(PathsD& solutionClosed, PathsD* solutionOpen)\n  {", "OUTPUT.reset"),
@@ -206,6 +210,7 @@ CONTROLS = {
          "\t\tfriend class ClipperBase;\n\t\tmutable LocalMinimaList minima_list_;\n\t\tstd::vector<Vertex*> vertex_lists_;\n\t\tvoid AddLocMin", "R2b.container-read-only"),
     ],
     "C15": [
+        ("horizontal crossing point built with the z of the crossing edge's bottom", E, "        pt = Point64(e->curr_x, horz.bot.y);", "#ifdef USINGZ\n        pt = Point64(e->curr_x, horz.bot.y, e->bot.z);\n#else\n        pt = Point64(e->curr_x, horz.bot.y);\n#endif", "Z.crossing-default"),
         ("Reset drops the Z callback", E, "    sel_ = nullptr;\n    succeeded_ = true;", "    sel_ = nullptr;\n    succeeded_ = true;\n#ifdef USINGZ\n    zCallback_ = nullptr;\n#endif", "ZCB.preserved"),
         ('intersection point pre-set to an end point before x and y are computed', 'CPP/Clipper2Lib/include/clipper2/clipper.core.h', '    if (t <= 0.0) ip = ln1a;\n    else if (t >= 1.0) ip = ln1b;\n    else\n    {', '    ip = ln1b;\n    if (t <= 0.0) ip = ln1a;\n    else if (t < 1.0)\n    {', 'Z.out-point-fresh'),
         ('first vertex of a D path loses its z', 'CPP/Clipper2Lib/src/clipper.engine.cpp', '#ifdef USINGZ\n    path.emplace_back(lastPt.x * inv_scale, lastPt.y * inv_scale, lastPt.z);\n#else\n    path.emplace_back(lastPt.x * inv_scale, lastPt.y * inv_scale);\n#endif\n\n    while (op2 != op)', '    path.emplace_back(lastPt.x * inv_scale, lastPt.y * inv_scale);\n\n    while (op2 != op)', 'Z.carry'),
